@@ -518,7 +518,7 @@ def main():
         run.violation("table translator failed closed: " + "; ".join(errors), dict(kind="translator", errors=errors), False)
         return run.finish()
     if changed: run.log("tables regenerated:", changed)
-    ok, log = run.build(["Proofs/C10/Time.vo", "Proofs/C10/Lines.vo", "Proofs/C10/Text.vo", "Proofs/C10/Roundtrip.vo", "Proofs/C10/Tags.vo", "Proofs/C10/Witness.vo",
+    ok, log = run.build(["Proofs/C10/Time.vo", "Proofs/C10/Lines.vo", "Proofs/C10/Text.vo", "Proofs/C10/Roundtrip.vo", "Proofs/C10/Font.vo", "Proofs/C10/Tags.vo", "Proofs/C10/Witness.vo",
                          "Model/SrtReaderCases.vo"], clean=(run.tier == "thorough"))
     proofs_ok = ok and run.theorems()
     if not ok: run.proof_log = log[-2500:]
